@@ -148,6 +148,18 @@ static std::optional<Failure> check_huge(Run &R, int shape) {
 }
 static void stage_huge(Run &R) { for (int shape : {0, 4}) { if ((shape / 4) % R.a.nworkers != R.a.worker) continue; auto f = check_huge(R, shape); if (f && !R.fail(*f)) return; } }
 
+// every byte value written over / inserted before every position of host names of different make-up
+static void stage_bytes(Run &R) {
+    uint64_t idx = 0, total = 0;
+    std::vector<Bytes> tpl = {"mail.example.org", "a.b", "xn--80a1acny.xn--p1ai", "sub-domain.example-host.com.", "0123456789.com", "a_b.example.org", "x." + Bytes(63, 'l') + ".net", "1.2.3.4", "localhost", "A.B.C.D.E.F.RU"};
+    for (const Bytes &t : tpl) for (size_t pos = 0; pos <= t.size(); pos++) for (int x = 1; x < 256; x++) {
+        total += 2; if ((int) (idx++ % R.a.nworkers) != R.a.worker) continue;
+        if (pos < t.size()) { Bytes r = t; r[pos] = (char) x; if (!run_one(R, r)) return; }
+        Bytes i = t; i.insert(i.begin() + pos, (char) x); if (!run_one(R, i)) return;
+    }
+    R.space("C04 every byte 0x01..0xFF written over / inserted before every position of 10 host-name templates", total);
+}
+
 static void stage_random(Run &R) {
     rc_run(R, "C04 generated host names agree with the reference", 3.0, [&](Src &s) -> std::optional<Failure> {
         uint32_t k = s.pick(4);
@@ -177,7 +189,7 @@ static void stage_corpus(Run &R) {
 #ifndef VF_FUZZ
 int main(int argc, char **argv) {
     Run R; R.a = parse_args(argc, argv); R.prop = "C04";
-    install_death(R.a);
+    install_death(R.a); install_watchdog(&R.evaluations, R.a.stage == "huge" ? 60 : 10);
     inflight() = [] { return g_bytes ? mkcase(*g_bytes).str() : std::string(); };
     for (int m = 0; m < 4; m++) { OBJ[m] = new Obj(A); if (OBJ[m]->configure(m, 0) != 0) { fprintf(stderr, "eav_setup failed\n"); return 2; } }
     for (int m = 0; m < 4; m++) { OBJT[m] = new Obj(A); if (OBJT[m]->configure(m, 1, 0x7ff) != 0) return 2; }
@@ -193,6 +205,7 @@ int main(int argc, char **argv) {
         else if (R.a.stage == "huge") stage_huge(R);
         else if (R.a.stage == "random") stage_random(R);
         else if (R.a.stage == "corpus") stage_corpus(R);
+        else if (R.a.stage == "bytes") stage_bytes(R);
         else { fprintf(stderr, "unknown stage %s\n", R.a.stage.c_str()); return 2; }
         rcode = finish(R);
     }
